@@ -81,7 +81,6 @@ WorkThread::WorkThread(event::Loop *main_loop) :
 {
     d_->default_main_loop = main_loop;
     d_->work_thread = std::thread(std::bind(&WorkThread::threadProc, this));
-    d_->stop_flag = false;
 }
 
 WorkThread::~WorkThread()
@@ -283,9 +282,12 @@ void WorkThread::cleanup()
             d_->task_pool.free(d_->undo_tasks_cabinet.free(token));
             d_->undo_tasks_token_deque.pop_front();
         }
+
+        //! 停止标记必须在锁内修改：工作线程是在持锁状态下检查它然后进入等待的，
+        //! 在锁外修改会产生数据竞争，并可能丢失下面的 notify_all()，导致 join() 永不返回
+        d_->stop_flag = true;
     }
 
-    d_->stop_flag = true;
     d_->cond_var.notify_all();
 
     d_->work_thread.join();
